@@ -568,3 +568,133 @@ PROPS.update({
 })
 for _k in ("C02", "C03", "C06", "C07"):
     NOT_APPLICABLE.pop(_k, None)
+
+
+# ------------------------------------------------------------------------------------------ C16 / C09 / C12 / C13 / C15 / C14 / C18
+def simple_inst(macro, name, args, function, contract, bounds, unwind=16, expect_panic=False, timeout=900, mem_gb=12):
+    src = "%s!(%s, %d%s);" % (macro, name, unwind, (", " + args) if args else "")
+    return Instance(name, src, expect_panic=expect_panic, function=function, contract=contract, bounds=bounds, descr=name, timeout=timeout, mem_gb=mem_gb)
+
+
+def c16_instances(tier):
+    I = []
+    fi_c = "flatten_indices: result = row-major offset of the last |dims| indices"
+    for rank, extra in ([(1, 0), (2, 0), (3, 0), (2, 1)] if tier == "quick" else [(1, 0), (2, 0), (3, 0), (4, 0), (2, 1), (3, 1), (1, 2)]):
+        I.append(simple_inst("fi_instance", "c16_fi_r%d_e%d" % (rank, extra), "%d, %d" % (rank, extra), "flatten_indices", fi_c,
+                             "rank %d (+%d ignored leading indices) concrete; every dim symbolic in 1..4, every index symbolic < dim" % (rank, extra)))
+    ctor_c = ("From<(dims, values)> / From<Vec<Float>> / From<Vec<usize>>: dims and row-major values verbatim, fresh untracked leaf; panic iff a "
+              "dim is 0 or the count mismatches; Index returns the row-major element; == iff dims and values equal")
+    ctors = [([2, 3], 6), ([3], 3), ([2, 1, 2], 4), ([2, 0], 0), ([2, 2], 3), ([0], 0), ([2, 3], 7)]
+    if tier == "thorough":
+        ctors += [([1], 1), ([2, 2, 2], 8), ([1, 2, 1, 2], 4), ([3, 1], 3), ([1, 1, 1], 1), ([2, 0, 2], 0), ([2, 2], 5), ([4], 3), ([1, 3, 2], 6)]
+    for d, ln in ctors:
+        valid = all(x > 0 for x in d) and prod(d) == ln
+        I.append(simple_inst("ctor_instance", "c16_ctor__%s__n%d" % (dn(d), ln), "[%s], %d" % (lit(d), ln), "Array::from (3 impls), Index, PartialEq",
+                             ctor_c, "dims %s, %d values concrete; values symbolic over ALL bit patterns" % (d, ln), unwind=ln + 12, expect_panic=not valid))
+    I.append(simple_inst("index_oob_instance", "c16_index_oob__2x2", "[2, 2]", "Index<usize>", "an out-of-range flat index is refused", "dims [2,2]",
+                         expect_panic=True))
+    nests = [(2, [2], False), (3, [1, 2], False), (2, [2], True)] + ([(1, [3], False), (2, [2, 2], False), (3, [2], True), (2, [1], False)] if tier == "thorough" else [])
+    for outer, inner, bad in nests:
+        I.append(simple_inst("nested_instance", "c16_nested__%dx%s%s" % (outer, dn(inner), "_bad" if bad else ""),
+                             "%d, [%s], %s" % (outer, lit(inner), str(bad).lower()), "From<Vec<Array>>",
+                             "dims [count, inner...], row-major concatenation; differing inner shapes panic",
+                             "%d arrays of dims %s" % (outer, inner), unwind=outer * prod(inner) + 12, expect_panic=bad))
+    I.append(simple_inst("arr_macro_instance", "c16_arr_macro", "", "arr!", "arr! at nesting depth 1..3 gives the nested dims and row-major layout",
+                         "8 symbolic values", unwind=20))
+    return I
+
+
+TRACK_OPS = {"add": 0, "mul": 1, "div": 2, "sub": 3, "axpy": 4, "matmul_c": 5, "matmul": 6, "neg": 10, "scale": 11, "powf": 12, "ln": 13,
+             "exp": 14, "recip": 15, "relu": 16, "sigmoid": 17, "sum": 18, "reshape": 19, "softmax": 20, "conv": 21, "user": 22}
+
+
+def c09_instances(tier):
+    I = [simple_inst("flags_instance", "c09_flags", "", "tracked/untracked/start_tracking/stop_tracking/Clone",
+                     "flag functions set exactly the documented flag(s) of this handle and return the previous value; a clone's flag is independent",
+                     "symbolic initial flag", unwind=12),
+         simple_inst("untracked_root_instance", "c09_untracked_root", "", "Array::backward", "a pass on an untracked result stores the seed on it only",
+                     "[2] arrays, symbolic values", unwind=12)]
+    ops = ["add", "matmul_c", "powf", "reshape", "sum", "user"] if tier == "quick" else list(TRACK_OPS)
+    for op in ops:
+        I.append(simple_inst("track_rule_instance", "c09_rule_%s" % op, str(TRACK_OPS[op]), "operation " + op,
+                             "result tracked iff an operand (incl. matmul's additive term) is tracked; untracked result keeps no reference",
+                             "operand flags SYMBOLIC (all 8 assignments), shapes concrete", unwind=16, timeout=1200))
+    gi = graph_inst
+    I += [gi("diamond", GRAPHS["diamond"], tracked=[True, False]), gi("untracked_mid", GRAPHS["untracked_mid"])]
+    if tier == "thorough":
+        I += [gi("diamond", GRAPHS["diamond"], tracked=[False, True]), gi("diamond", GRAPHS["diamond"], tracked=[False, False]),
+              gi("shared", GRAPHS["shared"], tracked=[False, True], mode=2), gi("untracked_mid", GRAPHS["untracked_mid"], mode=2),
+              gi("user_diamond", GRAPHS["user_diamond"], tracked=[False, True]), gi("untracked_mid", GRAPHS["untracked_mid"], tracked=[True, False])]
+    return I
+
+
+def c12_instances(tier):
+    I = [simple_inst("flags_instance", "c12_clone_contract", "", "Clone for Array",
+                     "clone shares values/children/counter/pending/gradient by pointer and copies the flag values", "symbolic flag", unwind=12)]
+    for v in (0, 1, 2):
+        I.append(simple_inst("handles_instance", "c12_handles_v%d" % v, str(v), "program with clones / drops / re-binding",
+                             "values and gradients bitwise identical to the plain program; pass started from a clone of the result",
+                             "program c=a*b; d=c+a; e=d*c on [2] arrays; variant %d; values/seed symbolic" % v, unwind=12, timeout=1500))
+    gi = graph_inst
+    I.append(gi("clone", GRAPHS["clone"]))
+    if tier == "thorough":
+        I += [gi("clone", GRAPHS["clone"], mode=2), gi("clone2", [("CLONE", 0, 0), ("CLONE", 2, 2), ("MUL", 2, 3), ("ADD", 4, 0)]),
+              gi("clone_mid", [("MUL", 0, 1), ("CLONE", 2, 2), ("MUL", 3, 2), ("ADD", 4, 3)])]
+    return I
+
+
+def c18_instances(tier):
+    I = []
+    for v in ((0, 1) if tier == "quick" else (0, 1, 2, 3)):
+        I.append(simple_inst("release_instance", "c18_release_v%d" % v, str(v), "drop glue of Array graphs (REAL Rc::drop, no stub)",
+                             "after all results are dropped each leaf is the sole owner of its buffer, no alias / pending value remains; "
+                             "gradients are independent arrays; Vec::from(leaf) succeeds",
+                             "program c=a*b; d=c+a; e=...; passes per variant %d; [2] arrays" % v, unwind=12, timeout=2400, mem_gb=24))
+    return I
+
+
+def c13_instances(tier):
+    I = []
+    sets = [([2], [], [], 1), ([2], [1, 2], [], 1), ([1], [2], [2, 1], 1)]
+    if tier == "thorough":
+        sets += [([2, 2], [2], [1], 1), ([2], [2], [], 2), ([1], [2], [1, 2], 2), ([3], [], [], 2), ([1, 1], [2, 1], [2], 1)]
+    for a, b, c, rounds in sets:
+        I.append(simple_inst("update_instance", "c13_update__%s__%s__%s__r%d" % (dn(a), dn(b), dn(c), rounds),
+                             "[%s], [%s], [%s], %d" % (lit(a), lit(b), lit(c), rounds), "GradientDescent::update",
+                             "every parameter holding a gradient becomes old - lr*own gradient (same dims, tracked, fresh leaf, gradient cleared); "
+                             "others untouched; older handles intact",
+                             "parameter shapes %s concrete; which parameters hold a gradient, tracking flags, values, lr in {1,2,1/2} SYMBOLIC; %d round(s)"
+                             % ([x for x in (a, b, c) if x], rounds), unwind=14, timeout=1500))
+    return I
+
+
+def c15_instances(tier):
+    I = []
+    dense = [(0, 2, 1, 0), (2, 2, 2, 1), (1, 2, 1, 2)] + ([(2, 1, 2, 0), (0, 1, 2, 1), (2, 2, 1, 2), (1, 3, 1, 0)] if tier == "thorough" else [])
+    for b, i, o, act in dense:
+        I.append(simple_inst("dense_instance", "c15_dense__b%d_%dto%d_a%d" % (b, i, o, act), "%d, %d, %d, %d" % (b, i, o, act), "Dense::forward",
+                             "activation(x W^T + b) for a single vector (b0) or a batch of row vectors", "sizes concrete, activation %s; parameters and input symbolic"
+                             % ["none", "relu", "sigmoid"][act], unwind=14, timeout=1500))
+    convs = [(0, 1, 2, 2, 1, 1, 2, 1, 1, 0), (2, 1, 2, 2, 2, 1, 1, 1, 1, 1)] + ([(0, 1, 3, 3, 1, 2, 2, 1, 1, 1), (1, 2, 2, 2, 1, 2, 2, 1, 1, 0),
+                                                                                   (2, 1, 2, 3, 1, 1, 2, 1, 1, 0)] if tier == "thorough" else [])
+    for c in convs:
+        I.append(simple_inst("conv_layer_instance", "c15_convlayer__b%d_d%d_%dx%d__f%d_%dx%d__s%d_%d_a%d" % c, ", ".join(map(str, c)), "Conv::forward",
+                             "activation(conv(x, filters, stride) + bias per filter)", "sizes concrete; parameters and input symbolic", unwind=20, timeout=1800, mem_gb=16))
+    for d in ([[2, 2]] + ([[1, 2], [2, 1], [4]] if tier == "thorough" else [])):
+        I.append(simple_inst("cost_instance", "c15_cost__%s" % dn(d), "[%s]" % lit(d), "cost::mse / cost::cross_entropy",
+                             "mse = (target-output)^2/count; cross-entropy = -target*ln(output)/leading dim", "dims %s" % d, unwind=12))
+    I.append(simple_inst("train_instance", "c15_model__b2_2to1_i1", "2, 2, 1, 1", "Model::forward/backward/update",
+                         "forward = composition; backward returns the sum of the cost array", "dense 2->1, batch 2, mse, 1 iteration", unwind=14, timeout=2400, mem_gb=20))
+    return I
+
+
+def c14_instances(tier):
+    I = [simple_inst("train_instance", "c14_train__b2_2to1_i2", "2, 2, 1, 2", "Model forward/backward/update loop",
+                     "each iteration returns the current loss and moves every parameter by -lr x exact gradient; nothing leaks between iterations",
+                     "one dense layer 2->1 (no activation), mse, batch 2, 2 iterations with fresh symbolic batches; lr in {1,2,1/2}", unwind=14, timeout=3000, mem_gb=24)]
+    if tier == "thorough":
+        I += [simple_inst("train_instance", "c14_train__b1_1to2_i3", "1, 1, 2, 3", "Model forward/backward/update loop", "as above", "dense 1->2, batch 1, 3 iterations",
+                          unwind=14, timeout=3000, mem_gb=24),
+              simple_inst("train_instance", "c14_train__b2_1to1_i3", "2, 1, 1, 3", "Model forward/backward/update loop", "as above", "dense 1->1, batch 2, 3 iterations",
+                          unwind=14, timeout=3000, mem_gb=24)]
+    return I
